@@ -27,3 +27,64 @@ package aac
 //@   modifies
 //@   ensures len(config) == 2
 //@   ensures config[0]>>3 == objType&0x1f && (config[0]&7)<<1 | config[1]>>7 == samplingIdx&0xf && (config[1]>>3)&0xf == channelConfig&0xf && config[1]&7 == 0
+
+// ---- AudioSpecificConfig syntax guard (ISO/IEC 14496-3 1.6.2.1): explicit hierarchical SBR / PS signalling -------------
+//@ import "github.com/cnotch/ipchub/utils/bits"
+//@ import "fmt"
+//@ import "runtime/debug"
+//@ global SampleRates readonly
+//@ global aacAudioChannels readonly
+// the configuration as a bit string: rd(pos, n) is the value of the n bits at bit position pos. The reader as this
+// package sees it (its own contracts: package bits): a read yields those bits and advances, Peek yields them without
+// advancing; running out of data panics and is contained by Decode's recover
+//@ spec func rd(pos int, n int) uint64 = uninterpreted
+//@ extern func bits.NewReader(buf []byte) (r *bits.Reader)
+//@   modifies
+//@   fresh r
+//@   ensures ghostInt(r, "pos") == 0
+//@ extern func (r *bits.Reader) ReadUint8(n int) (res uint8)
+//@   panics
+//@   requires r != nil
+//@   modifies *r, ghostInt(r, "pos")
+//@   ensures 0 < n && n <= 8 ==> uint64(res) == rd(old(ghostInt(r, "pos")), n) && ghostInt(r, "pos") == old(ghostInt(r, "pos")) + n && int(res) < 1<<uint(n)
+//@ extern func (r *bits.Reader) ReadBit() (res uint8)
+//@   panics
+//@   requires r != nil
+//@   modifies *r, ghostInt(r, "pos")
+//@   ensures res <= 1
+//@ extern func (r *bits.Reader) ReadInt(n int) (res int)
+//@   panics
+//@   requires r != nil
+//@   modifies *r, ghostInt(r, "pos")
+//@   ensures 0 < n && n < 32 ==> 0 <= res && res < 1<<uint(n)
+//@ extern func (r *bits.Reader) Read(n int) (res uint32)
+//@   panics
+//@   requires r != nil
+//@   modifies *r, ghostInt(r, "pos")
+//@ extern func (r *bits.Reader) Skip(n int) ()
+//@   panics
+//@   requires r != nil
+//@   modifies *r, ghostInt(r, "pos")
+//@ extern func (r *bits.Reader) Peek(n int) (res uint64)
+//@   panics
+//@   requires r != nil
+//@   modifies
+//@   ensures res == rd(ghostInt(r, "pos"), n)
+//@ extern func (r *bits.Reader) BitsLeft() (n int)
+//@   requires r != nil
+//@   modifies
+//@ extern func fmt.Errorf(format string, a ...interface{}) (err error)
+//@   modifies
+//@   ensures err != nil
+//@ extern func debug.Stack() (b []byte)
+//@   modifies
+// audioObjectType 5 (SBR), or 29 (PS) unless the next bits show the MP3onMP4 draft pattern (W6132 Annex YYYY), is followed
+// by extensionSamplingFrequencyIndex and the underlying audioObjectType: sbrPresentFlag = 1, extensionAudioObjectType = 5.
+// Stated for the common layout (no escape object type, no explicit core frequency): the guard bits start at position 13
+//@ spec func mp3onmp4(p int) bool = (rd(p, 3)&3) != 0 && (rd(p, 9)&0x3F) == 0
+//@ func (asc *AudioSpecificConfig) Decode(config []byte) (err error)
+//@   recovers
+//@   requires asc != nil
+//@   modifies all()
+//@   ensures err == nil && rd(0, 5) == AOT_SBR && rd(5, 4) != 15 ==> asc.Sbr == 1 && asc.ExtObjectType == AOT_SBR
+//@   ensures err == nil && rd(0, 5) == AOT_PS && rd(5, 4) != 15 && !mp3onmp4(13) ==> asc.Sbr == 1 && asc.ExtObjectType == AOT_SBR
